@@ -222,6 +222,62 @@ impl ResolvedAccountPolicy {
     }
 }
 
+/// Runtime-verification access: build a policy from plain values and read a resolution back.
+#[cfg(feature = "verif-hooks")]
+pub mod verif_hooks {
+    use super::*;
+
+    #[derive(Clone, Debug, PartialEq, Eq)]
+    pub struct PlainPolicy {
+        pub privilege_expiry: u32,
+        pub authsession_expiry: u32,
+        pub pw_min_length: u32,
+        pub credential_policy: CredentialType,
+        pub webauthn_att_ca_list: Option<AttestationCaList>,
+        pub limit_search_max_filter_test: Option<u64>,
+        pub limit_search_max_results: Option<u64>,
+        pub allow_primary_cred_fallback: Option<bool>,
+    }
+
+    #[derive(Clone, Debug, PartialEq, Eq)]
+    pub struct PlainResolved {
+        pub privilege_expiry: u32,
+        pub authsession_expiry: u32,
+        pub pw_min_length: u32,
+        pub pw_max_length: u32,
+        pub credential_policy: CredentialType,
+        pub webauthn_att_ca_list: Option<AttestationCaList>,
+        pub limit_search_max_filter_test: Option<u64>,
+        pub limit_search_max_results: Option<u64>,
+        pub allow_primary_cred_fallback: Option<bool>,
+    }
+
+    /// `ResolvedAccountPolicy::fold_from` over plain inputs, in the given order.
+    pub fn fold(policies: &[PlainPolicy]) -> PlainResolved {
+        let r = ResolvedAccountPolicy::fold_from(policies.iter().cloned().map(|p| AccountPolicy {
+            privilege_expiry: p.privilege_expiry,
+            authsession_expiry: p.authsession_expiry,
+            pw_min_length: p.pw_min_length,
+            credential_policy: p.credential_policy,
+            webauthn_att_ca_list: p.webauthn_att_ca_list,
+            limit_search_max_filter_test: p.limit_search_max_filter_test,
+            limit_search_max_results: p.limit_search_max_results,
+            allow_primary_cred_fallback: p.allow_primary_cred_fallback,
+        }));
+        PlainResolved {
+            privilege_expiry: r.privilege_expiry,
+            authsession_expiry: r.authsession_expiry,
+            pw_min_length: r.pw_min_length,
+            pw_max_length: r.pw_max_length,
+            credential_policy: r.credential_policy,
+            webauthn_att_ca_list: r.webauthn_att_ca_list,
+            limit_search_max_filter_test: r.limit_search_max_filter_test,
+            limit_search_max_results: r.limit_search_max_results,
+            allow_primary_cred_fallback: r.allow_primary_cred_fallback,
+        }
+    }
+}
+
 #[cfg(test)]
 mod tests {
     use super::{AccountPolicy, CredentialType, ResolvedAccountPolicy};
